@@ -1651,3 +1651,8 @@ pub(crate) mod testing {
         }), builder);
     }
 }
+// verification hook: lets the add-only facade (verif/client2.rs) name the crate-private WebSocket byte-stream adapter
+#[cfg(all(feature = "verif", feature = "threaded-websockets"))]
+pub(crate) mod verif_ws {
+    pub(crate) use super::ws_stream::WebsocketStreamWrapper;
+}
